@@ -87,7 +87,13 @@ def run(ctx):
             _, v2 = validate(ctx, wd, "bad.ndjson")
             if v2 is None:
                 raise Broken("rpc trace validation is vacuous: a history with a foreign result was accepted")
+    # streamed messages reach the caller whatever the interleaving of its wait / poll steps with their arrival (MpxWake, rpc layer)
+    from vlib import wakefam
+    wr, wsum = wakefam.run(ctx, "rpc")
+    states += wr.distinct
+    trans += wr.generated
     ctx.coverage = {
+        "wake_schedules_replayed": wsum["schedules"],
         "states": states, "transitions": trans, "traces_validated_against_impl": calls, "samples": samples, "events": events,
         "invariants": ["HandlerAtMostOnce", "OkOnlyIfServerSentOk", "StreamPrefix", "AllHandled (at every run end)"],
         "scripts": ["unary OK", "application-defined code+message", "panic", "standard error code", "early responder while the client "
